@@ -2475,7 +2475,9 @@ impl<'a> Parser<'a> {
         // Update expressions (prefix)
         if let Some(op) = self.current_update_op() {
             self.advance();
-            let argument = Rc::new(self.nested(Self::parse_unary_expression)?);
+            let argument = Rc::new(Self::without_assertions(
+                self.nested(Self::parse_unary_expression)?,
+            ));
             let span = self.span_from(start);
             return Ok(Expression::Update(UpdateExpression {
                 operator: op,
@@ -2559,7 +2561,7 @@ impl<'a> Parser<'a> {
             let span = self.span_from(start);
             expr = Expression::Update(UpdateExpression {
                 operator: op,
-                argument: Rc::new(expr),
+                argument: Rc::new(Self::without_assertions(expr)),
                 prefix: false,
                 span,
             });
@@ -5706,6 +5708,25 @@ impl<'a> Parser<'a> {
                 expr.span().line,
                 expr.span().column,
             )),
+        }
+    }
+
+    /// The operand of `++` / `--` without TypeScript assertions: `x!++`, `(x as T)++` update x
+    fn without_assertions(expr: Expression) -> Expression {
+        match expr {
+            Expression::NonNull(n) => Self::without_assertions(n.expression.as_ref().clone()),
+            Expression::TypeAssertion(t) => {
+                Self::without_assertions(t.expression.as_ref().clone())
+            }
+            Expression::Parenthesized(inner, _)
+                if matches!(
+                    inner.as_ref(),
+                    Expression::NonNull(_) | Expression::TypeAssertion(_)
+                ) =>
+            {
+                Self::without_assertions(inner.as_ref().clone())
+            }
+            other => other,
         }
     }
 
